@@ -233,6 +233,8 @@ def replay(verdict, exe, res, aspects, pol=None, seed=0, renderings=("canonical"
                 probs.append("open streams %d->%d, descriptors %d->%d" % (b0["streams"], e0["streams"], b0["fds"], e0["fds"]))
             if e0["out"] != b0["out"]:
                 probs.append("stray output on stdout")
+            if e0.get("uptr_lost", 0):
+                probs.append("%d user pointer(s) produced by the value-parsing callback were never handed to the release callback" % e0["uptr_lost"])
             if e0.get("incsp", 0) != 0:
                 probs.append("include stack not empty after the behaviour (%d)" % e0["incsp"])
             if probs:
